@@ -37,14 +37,17 @@ TRACE_FIELDS = ("k", "ep", "x", "y", "ids", "ok", "name")
 # ----------------------------------------------------------------------------- storage model guard
 
 # harness/repl/world.go re-implements these four functions of internal/storage/system/store.go in memory
-# (there is no Postgres here).  If their text changes, the in-memory model must be reviewed first: the
-# check refuses to give a verdict rather than judging the code against an outdated storage model.
+# (there is no Postgres here).  The guard fingerprints the query-building calls only (NewUpdate / Model /
+# Table / Set / Where / Returning / Scan / Exec with their arguments); error mapping and the like may
+# change freely.  If a query changes, the in-memory model must be reviewed first: the check refuses to
+# give a verdict rather than judging the code against an outdated storage model.
 STORE_FUNCS = {
-    "StorePipelineState": "b38e8ecf31e8a73b",
-    "UpdatePipeline": "fd73270a1b483292",
-    "GetPipeline": "ed98c2694e699aa9",
-    "ListEnabledPipelines": "400c7a157e48ca3d",
+    "StorePipelineState": "2ecddf83f8fecbe0",   # UPDATE pipelines SET last_log_id = ? WHERE id = ?
+    "UpdatePipeline": "fe0f8141fab64138",       # UPDATE _system.pipelines SET k = v.., version = version + 1 WHERE id = ? RETURNING *
+    "GetPipeline": "e52f3240b4ec026a",          # SELECT .. WHERE id = ?
+    "ListEnabledPipelines": "99d92255717bd57f",  # SELECT .. WHERE enabled
 }
+_QUERY_CALL = re.compile(r"\.(?:NewSelect|NewUpdate|NewInsert|NewDelete|Model|Table|Set|Where|Returning|Scan|Exec)\((?:[^()]|\([^()]*\))*\)")
 
 
 def check_storage_model():
@@ -57,10 +60,11 @@ def check_storage_model():
         m = re.search(r"func \(d \*DefaultStore\) %s\(.*?\n}\n" % name, src, re.S)
         if not m:
             raise vlib.Inconclusive("system/store.go: %s not found; review harness/repl/world.go" % name)
-        got = hashlib.sha1(re.sub(r"\s+", " ", m.group(0)).strip().encode()).hexdigest()[:16]
+        calls = " ".join(x.group(0) for x in _QUERY_CALL.finditer(re.sub(r"\s+", "", m.group(0))))
+        got = hashlib.sha1(calls.encode()).hexdigest()[:16]
         if got != want:
-            raise vlib.Inconclusive("system/store.go: %s changed (%s); review the in-memory storage of harness/repl/world.go "
-                                    "and update STORE_FUNCS in checks/C33.py" % (name, got))
+            raise vlib.Inconclusive("system/store.go: the query of %s changed (%s: %s); review the in-memory storage of "
+                                    "harness/repl/world.go and update STORE_FUNCS in checks/C33.py" % (name, got, calls))
 
 
 # ----------------------------------------------------------------------------- TLC helpers
@@ -90,7 +94,7 @@ def tlc_jobs(tier):
     """(name, module, cfg text, kwargs, expectation).  expectation: hold | must_fail:<inv> | finding"""
     q = tier == "quick"
     J = []
-    W = dict(workers=4, timeout=1500)
+    W = dict(workers=4, timeout=1500 if q else 2700)
     if q:
         J.append(("safety_L3_F1", "Replication", cfg_from("Replication_safety.cfg"), W, "hold"))
         J.append(("safety_L2_F0_late", "Replication", cfg_from("Replication_safety.cfg", MaxLogs=2, MaxFail=0, LateAccepts="TRUE"), W, "hold"))
@@ -99,8 +103,8 @@ def tlc_jobs(tier):
         J.append(("live_L2_F1_norestart", "Replication", cfg_from("Replication_live.cfg", MaxRestarts=0), dict(workers=2, timeout=1500), "hold"))
         J.append(("join_L2", "Replication", cfg_from("Replication_join.cfg", LateAccepts="FALSE"), W, "hold"))
     else:
-        J.append(("safety_L4_F2", "Replication", cfg_from("Replication_safety.cfg", MaxLogs=4, MaxFail=2), dict(workers=5, timeout=2400), "hold"))
-        J.append(("safety_L3_F2_late", "Replication", cfg_from("Replication_safety.cfg", MaxLogs=3, MaxFail=2, LateAccepts="TRUE"), dict(workers=6, timeout=2400), "hold"))
+        J.append(("safety_L4_F2", "Replication", cfg_from("Replication_safety.cfg", MaxLogs=4, MaxFail=2), dict(workers=5, timeout=2700), "hold"))
+        J.append(("safety_L3_F2_late", "Replication", cfg_from("Replication_safety.cfg", MaxLogs=3, MaxFail=2, LateAccepts="TRUE"), dict(workers=6, timeout=2700), "hold"))
         J.append(("live_L3", "Replication", cfg_from("Replication_live.cfg", MaxLogs=3), W, "hold"))
         J.append(("live_L2_late_F2", "Replication", cfg_from("Replication_live.cfg", MaxFail=2, LateAccepts="TRUE"), W, "hold"))
         J.append(("join_L3", "Replication", cfg_from("Replication_join.cfg", MaxLogs=3), W, "hold"))
@@ -365,8 +369,15 @@ def report(c, binp, work, flagged, inv, rej, validated):
         sc = chosen
         obs = dict(sc["observation"])
         obs["batches"] = [(b["ep"], b["ids"]) for b in obs.get("batches") or []]
-        replay.update(findings=sc.get("findings"), tlc_invariants=sorted(inv.get(sc["uid"], set())),
-                      rejected_event=rej.get(sc["uid"]), observation=obs, events=fmt_events(sc["events"], 400))
+        # the replay object only holds what is needed to run the case again (stable across runs); what was
+        # observed this time goes to the evidence file
+        replay.update(signature=sig, failed_predicates=sorted(set(f["oracle"] for f in sc.get("findings") or [])),
+                      trace_rejected=rej.get(sc["uid"]) is not None)
+        det = c.cov.setdefault("violation_details", [])
+        if len(det) < 3:
+            det.append(dict(signature=sig, scenario=sc["id"], kind=sc["kind"], findings=(sc.get("findings") or [])[:6],
+                            tlc_invariants=sorted(inv.get(sc["uid"], set())), rejected_event=rej.get(sc["uid"]),
+                            observation=obs, events=fmt_events(sc["events"], 120)))
         parts, seen = [], set()
         for f in sc.get("findings") or []:
             if f["oracle"] not in seen:
